@@ -68,17 +68,30 @@ def main(argv=None):
     if args.shard:
         k, n = (int(x) for x in args.shard.split("/"))
         ctx.shard, ctx.nshards = k, n
-        mod.run(ctx)
+        try:
+            mod.run(ctx)
+        except Exception:  # noqa: BLE001
+            import traceback
+
+            traceback.print_exc()
+            return common.EXIT_INCONCLUSIVE
         with open(args.state_out, "w") as fp:
             json.dump(ctx.dump_state(), fp, default=repr)
         return 0
 
     sharded = args.tier == "thorough" and not args.no_shards and getattr(mod, "SHARDED", True)
-    if sharded:
-        run_sharded(ctx, prop, args)
-    else:
-        ctx.shard, ctx.nshards = 0, 1
-        mod.run(ctx)
+    try:
+        if sharded:
+            run_sharded(ctx, prop, args)
+        else:
+            ctx.shard, ctx.nshards = 0, 1
+            mod.run(ctx)
+    except Exception:  # noqa: BLE001 - a crash of the harness is never a verdict
+        import traceback
+
+        traceback.print_exc()
+        print(f"INCONCLUSIVE property={prop} reason=harness error (traceback on stderr)")
+        return common.EXIT_INCONCLUSIVE
     return ctx.finish(mod.RULE, mod.floors(ctx))
 
 
